@@ -177,8 +177,18 @@ def check_nav(c, st):
     uu = common.load('urlutils')
     base, refs = c['base'], c['refs']
     st.monitor_evals += 1
+    def snap(u):
+        return (u.to_text(), {a: getattr(u, a) for a in ('scheme', 'username', 'password', 'host', 'port', 'fragment')},
+                tuple(u.path_parts), u.query_params.items(multi=True))
     try:
         b = uu.URL(base)
+        if c.get('prep') == 'normalize':
+            # a base that has been through normalize() (its internals are no longer the parser's)
+            b.normalize()
+            base = b.to_text()
+        elif c.get('prep') == 'navigated':
+            b = uu.URL(base).navigate('')
+            base = b.to_text()
         before = b.to_text()
         attrs_before = {a: getattr(b, a) for a in ('scheme', 'username', 'password', 'host', 'port',
                                                    'path_parts', 'fragment')}
@@ -186,13 +196,40 @@ def check_nav(c, st):
         cur = b
         want = base
         chain = []
+        kept = [(b, snap(b))]       # every URL object of the chain is kept and must stay as it was
         for ref in refs:
             want = rfc_resolve(want, ref)
             # the destination may be given as text or as a URL object
             cur = cur.navigate(uu.URL(ref) if c.get('ref_as_url') else ref)
             chain.append(cur.to_text())
+            kept.append((cur, snap(cur)))
     except Exception as e:
         return ('navigate-raised:%s' % type(e).__name__, 'URL(%r).navigate chain %r raised %r' % (base, refs, e))
+    for i, (u, was) in enumerate(kept):
+        if snap(u) != was:
+            return ('base-modified:intermediate' if i else 'base-modified' + (':prepared' if c.get('prep') else ''),
+                    'URL #%d of the chain %r from %r was %r, after later navigate() calls from it it is %r'
+                    % (i, tuple(refs), base, was[0], u.to_text()))
+    # a second link resolved from each kept URL (a crawler resolving several links of one page)
+    for sib in c.get('siblings', ()):
+        for i, (u, was) in enumerate(kept):
+            st.monitor_evals += 1
+            try:
+                got2 = u.navigate(sib).to_text()
+                want2 = rfc_resolve(was[0], sib)
+            except Exception as e:
+                return ('navigate-raised:%s:sibling' % type(e).__name__, 'URL(%r).navigate(%r) raised %r' % (was[0], sib, e))
+            if norm(got2) != norm(want2):
+                fresh = outcome(lambda: uu.URL(was[0]).navigate(sib).to_text())
+                if fresh == ('ok', got2):
+                    break       # the single-step rule reports this one with a cleaner witness
+                return ('navigate:kept-url-differs-from-fresh',
+                        'URL #%d of chain %r from %r (text %r).navigate(%r) -> %r, from a freshly parsed URL %r, RFC %r'
+                        % (i, tuple(refs), base, was[0], sib, got2, fresh, want2))
+            if snap(u) != was:
+                return ('base-modified:intermediate' if i else 'base-modified' + (':prepared' if c.get('prep') else ''),
+                        'URL #%d of the chain %r from %r was %r, after navigate(%r) it is %r'
+                        % (i, tuple(refs), base, was[0], sib, u.to_text()))
     got = cur.to_text()
     if norm(got) != norm(want):
         shape = refshape(refs[-1])
@@ -301,7 +338,12 @@ def gen(r):
                 ''.join('/' + s for s in segs) + r.choice(['', '?q=1', '#f'])}
     base = r.choice(BASES)
     nref = 1 if r.random() < 0.75 else r.randint(2, 4)
-    return {'kind': 'nav', 'base': base, 'refs': [gen_ref(r) for _ in range(nref)], 'ref_as_url': r.random() < 0.3}
+    c = {'kind': 'nav', 'base': base, 'refs': [gen_ref(r) for _ in range(nref)], 'ref_as_url': r.random() < 0.3}
+    if r.random() < 0.3:
+        c['prep'] = r.choice(['normalize', 'navigated'])
+    if r.random() < 0.3:
+        c['siblings'] = [gen_ref(r, 4) for _ in range(r.randint(1, 3))]
+    return c
 
 
 def systematic(maxlen):
